@@ -1694,6 +1694,15 @@ def check(ctx):
     ctx.trust('python ast / re._parser')
     classes0 = G.check_classes(ctx.prog)
     check_eval(ctx, classes0)
+    # and/or/not evaluate their operands with the arguments of *this* call:
+    # nothing about a request is parked on the (shared) check node
+    from . import c12
+    nw, nreg = c12.check_node_writes(ctx, 'C01.EVAL(C12.NO-WRITE)')
+    if not nw:
+        ctx.ob('C01.EVAL(C12.NO-WRITE)', True, ctx.where(
+            ctx.prog.module(CHECKS), ctx.prog.module(CHECKS).tree), CHECKS,
+            'evaluation region of %d functions' % nreg,
+            'no check method stores into its own node while evaluating')
     eval_broken = bool(ctx.findings)
     try:
         classes, pstate, table, effects, model = grammar_model(ctx)
